@@ -899,19 +899,21 @@ type WSClient struct {
 	Status int
 	wmu    sync.Mutex
 	OnPkt  func(*WSClient, Pkt) // called from the read loop after the packet was logged
+
+	refCode   int    // JSON code of an HTTP refusal of the upgrade request
+	refMsg    string // its message
+	closeText string // text of the close frame the server sent
+}
+
+func jsonUnmarshal(b []byte, v any) error { return json.Unmarshal(b, v) }
+
+// dialRaw opens a websocket with an arbitrary query string (routing/admission cells).
+func (w *World) dialRaw(q string, hdr http.Header) *WSClient {
+	return w.dialWSQuery(&Sess{Proto: 4}, q, hdr, nil)
 }
 
 // DialWS opens a WebSocket (handshake when s.Sid == "", upgrade candidate otherwise).
 func (w *World) DialWS(s *Sess, extraQuery string, hdr http.Header, onPkt func(*WSClient, Pkt)) *WSClient {
-	w.mu.Lock()
-	w.connN++
-	id := w.connN
-	w.mu.Unlock()
-	cc, sc := memPipe()
-	c := &WSClient{ID: id, Kind: "websocket", Sess: s, raw: cc, w: w, OnPkt: onPkt}
-	w.mu.Lock()
-	w.conns[id] = c
-	w.mu.Unlock()
 	q := fmt.Sprintf("EIO=%d&transport=websocket", s.Proto)
 	if s.B64 {
 		q += "&b64=1"
@@ -922,12 +924,27 @@ func (w *World) DialWS(s *Sess, extraQuery string, hdr http.Header, onPkt func(*
 	if extraQuery != "" {
 		q += "&" + extraQuery
 	}
+	return w.dialWSQuery(s, q, hdr, onPkt)
+}
+
+func (w *World) dialWSQuery(s *Sess, q string, hdr http.Header, onPkt func(*WSClient, Pkt)) *WSClient {
+	w.mu.Lock()
+	w.connN++
+	id := w.connN
+	w.mu.Unlock()
+	cc, sc := memPipe()
+	c := &WSClient{ID: id, Kind: "websocket", Sess: s, raw: cc, w: w, OnPkt: onPkt}
+	w.mu.Lock()
+	w.conns[id] = c
+	w.mu.Unlock()
 	w.rec.Log("cli.ws.dial", "cid", id, "sid", s.Sid, "q", q)
 	// server side: read the upgrade request from the connection and hand it to the handler
 	go func() {
 		br := bufio.NewReader(sc)
 		req, err := http.ReadRequest(br)
 		if err != nil {
+			sc.Write([]byte("HTTP/1.1 400 Bad Request\r\nContent-Length: 0\r\n\r\n")) // what net/http answers to a malformed request
+			sc.Close()
 			return
 		}
 		ctx, cancel := context.WithCancel(context.Background())
@@ -966,6 +983,7 @@ func (w *World) DialWS(s *Sess, extraQuery string, hdr http.Header, onPkt func(*
 			c.Status = resp.StatusCode
 			b, _ := io.ReadAll(resp.Body)
 			body = string(b)
+			c.refCode, c.refMsg = jsonCodeMsg(b)
 		}
 		w.rec.Log("cli.ws.refused", "cid", id, "sid", s.Sid, "status", c.Status, "text", body)
 		return c
@@ -1017,6 +1035,7 @@ func (c *WSClient) readLoop() {
 			}
 			c.wmu.Lock()
 			c.closed = true
+			c.closeText = text
 			c.wmu.Unlock()
 			w.rec.Log("cli.ws.closed", "cid", c.ID, "sid", c.Sess.Sid, "code", code, "text", text)
 			return
